@@ -58,24 +58,30 @@ open Hist
 
 /-! ## The columns after a prefix of the writes of `commit b` -/
 
-/-- The history-row write of one cached key. -/
-theorem applyWrite_histRow (W b : Nat) (t : Table K V) (k0 : K) (h0 : Hist V) :
-    let t1 := applyWrite t (if h0.isOld W b then Write.delCdb k0 else Write.putCdb k0 h0)
-    t1.cache = t.cache ∧ t1.db = t.db ∧
-    (∀ k, t1.cdb.get? k = if k = k0 then (if h0.isOld W b then none else some h0) else t.cdb.get? k) := by
-  intro t1
-  cases ho : h0.isOld W b <;> simp [t1, ho, applyWrite, AMap.get?_erase, AMap.get?_insert]
+/-- The two writes of one cached key, and the effect of the first one alone: a kept history has its history row
+written and its value row untouched; an old history has its value row written and its history row (the previously
+persisted history, if any) still in place. -/
+theorem keyWrites_first (W b : Nat) (t : Table K V) (k0 : K) (h0 : Hist V) :
+    ∃ w1 w2, keyWrites W b k0 h0 = [w1, w2] ∧ (applyWrite t w1).cache = t.cache ∧
+      (∀ k, k ≠ k0 → (applyWrite t w1).cdb.get? k = t.cdb.get? k ∧ (applyWrite t w1).db.get? k = t.db.get? k) ∧
+      (applyWrite t w1).cdb.get? k0 = (if h0.isOld W b then t.cdb.get? k0 else some h0) ∧
+      (applyWrite t w1).db.get? k0 = (if h0.isOld W b then h0.latest else t.db.get? k0) := by
+  cases ho : h0.isOld W b <;> cases hl : h0.latest <;>
+    refine ⟨_, _, by simp only [keyWrites, ho, hl]; rfl, ?_⟩ <;>
+    simp (config := { contextual := true }) [applyWrite, AMap.get?_erase, AMap.get?_insert]
 
 /-- After the first `i` writes of the commit of a duplicate-free cache list `c`: a key outside `c` is untouched;
 a key of `c` is untouched, or has both rows written, or - only the key number `i / 2` of `c`, and only for odd
-`i` - has its history row written (deleted, if old) and its value row not yet. -/
+`i` - has its first row written and its second not yet: for a kept history the history row is written and the value
+row is the old one; for an old history the value row is written and the history row is still the old one. -/
 theorem applyWrites_take (W b : Nat) (c : AMap K (Hist V)) (nd : AMap.Nodup c) (t : Table K V) (i : Nat) :
     let t' := t.applyWrites ((c.flatMap (fun p => keyWrites W b p.1 p.2)).take i)
     t'.cache = t.cache ∧
     (∀ k, c.get? k = none → t'.cdb.get? k = t.cdb.get? k ∧ t'.db.get? k = t.db.get? k) ∧
     (∀ k h, c.get? k = some h →
       (t'.cdb.get? k = t.cdb.get? k ∧ t'.db.get? k = t.db.get? k) ∨
-      (t'.cdb.get? k = (if h.isOld W b then none else some h) ∧ t'.db.get? k = t.db.get? k ∧
+      (t'.cdb.get? k = (if h.isOld W b then t.cdb.get? k else some h) ∧
+        t'.db.get? k = (if h.isOld W b then h.latest else t.db.get? k) ∧
         i % 2 = 1 ∧ c[i / 2]? = some (k, h)) ∨
       (t'.cdb.get? k = (if h.isOld W b then none else some h) ∧ t'.db.get? k = h.latest)) := by
   induction c generalizing t i with
@@ -91,11 +97,9 @@ theorem applyWrites_take (W b : Nat) (c : AMap K (Hist V)) (nd : AMap.Nodup c) (
     have hk0 : AMap.get? rest k0 = none := by
       apply (AMap.get?_eq_none_iff rest k0).mpr
       simp only [AMap.Nodup, AMap.keys, List.map_cons, List.nodup_cons] at nd; exact nd.1
-    obtain ⟨w2, hw2⟩ : ∃ w2, keyWrites W b k0 h0 =
-        [if h0.isOld W b then Write.delCdb k0 else Write.putCdb k0 h0, w2] := ⟨_, rfl⟩
+    obtain ⟨w1, w2, hw2, c1, o1, d1, b1⟩ := keyWrites_first W b t k0 h0
     have hfl : ((k0, h0) :: rest).flatMap (fun p => keyWrites W b p.1 p.2) =
-        (if h0.isOld W b then Write.delCdb k0 else Write.putCdb k0 h0) :: w2 ::
-        rest.flatMap (fun p => keyWrites W b p.1 p.2) := by
+        w1 :: w2 :: rest.flatMap (fun p => keyWrites W b p.1 p.2) := by
       rw [List.flatMap_cons]
       show keyWrites W b k0 h0 ++ _ = _
       rw [hw2]; rfl
@@ -108,27 +112,24 @@ theorem applyWrites_take (W b : Nat) (c : AMap K (Hist V)) (nd : AMap.Nodup c) (
       exact ⟨rfl, fun k _ => ⟨rfl, rfl⟩, fun k h _ => Or.inl ⟨rfl, rfl⟩⟩
     | 1 =>
       intro t'
-      have e : t' = applyWrite t (if h0.isOld W b then Write.delCdb k0 else Write.putCdb k0 h0) := by
+      have e : t' = applyWrite t w1 := by
         simp [t', applyWrites]
       rw [e]
-      obtain ⟨c1, b1, d1⟩ := applyWrite_histRow W b t k0 h0
       refine ⟨c1, ?_, ?_⟩
       · intro k hg
         rw [AMap.get?_cons] at hg
         by_cases hk : k0 = k
         · simp [hk] at hg
-        · have hk' : ¬ k = k0 := fun e => hk e.symm
-          rw [d1 k, b1]; simp [hk']
+        · exact o1 k (fun e => hk e.symm)
       · intro k h hg
         rw [AMap.get?_cons] at hg
         by_cases hk : k0 = k
         · subst hk
           simp at hg; subst hg
           right; left
-          rw [d1 k0, b1]; simp
-        · have hk' : ¬ k = k0 := fun e => hk e.symm
-          left
-          rw [d1 k, b1]; simp [hk']
+          exact ⟨d1, b1, rfl, rfl⟩
+        · left
+          exact o1 k (fun e => hk e.symm)
     | j + 2 =>
       intro t'
       let t1 := t.applyWrites (keyWrites W b k0 h0)
@@ -161,24 +162,24 @@ theorem applyWrites_take (W b : Nat) (c : AMap K (Hist V)) (nd : AMap.Nodup c) (
           rcases m2 k h hg with ⟨x1, x2⟩ | ⟨x1, x2, x3, x4⟩ | ⟨x1, x2⟩
           · left; exact ⟨x1.trans hd, x2.trans hb⟩
           · right; left
-            refine ⟨x1, x2.trans hb, by omega, ?_⟩
+            refine ⟨by rw [x1, hd], by rw [x2, hb], by omega, ?_⟩
             have : (j + 2) / 2 = j / 2 + 1 := by omega
             rw [this, List.getElem?_cons_succ]; exact x4
           · right; right; exact ⟨x1, x2⟩
 
 /-! ## What the reopened table retrieves -/
 
-/-- Key by key: if, at block `n`, the persisted history and the cached one (when there is one) both say `x k`, an
-old cached history has `x k` as its latest value, and - for the one key the crash may have caught between its two
-writes, if its history is old (row deleted) - the value row still in place is `x k`, then after the crash and the
-reopen every key's retrievable history says `x k` at `n`. -/
+/-- Key by key: if, at block `n`, the persisted history and the cached one (when there is one) both say `x k`, and
+an old cached history has `x k` as its latest value, then after the crash and the reopen every key's retrievable
+history says `x k` at `n`.  (For the one key the crash may have caught between its two writes: a kept history has
+been written; an old history has had its value row written and the previously persisted history - which says `x k`
+at `n` - is still there, or there was none and the new value row is `x k`.) -/
 theorem crash_retrieve {W b i n : Nat} {t : Table K V} (nd : AMap.Nodup t.cache) (x : K → Option V)
     (hs1 : ∀ k h, t.cache.get? k = some h → Sorted h)
     (hs2 : ∀ k h, t.cdb.get? k = some h → Sorted h)
     (hdisk : ∀ k, valAt (disk t k) n = some (x k))
     (hcache : ∀ k h, t.cache.get? k = some h → valAt h n = some (x k))
-    (hold : ∀ k h, t.cache.get? k = some h → h.isOld W b = true → h.latest = x k)
-    (hrow : ∀ k h, i % 2 = 1 → t.cache[i / 2]? = some (k, h) → h.isOld W b = true → t.db.get? k = x k) :
+    (hold : ∀ k h, t.cache.get? k = some h → h.isOld W b = true → h.latest = x k) :
     (t.crashCommit W b i).cache = [] ∧
     ∀ k, Sorted ((t.crashCommit W b i).retrieve k) ∧ valAt ((t.crashCommit W b i).retrieve k) n = some (x k) := by
   refine ⟨rfl, ?_⟩
@@ -214,8 +215,16 @@ theorem crash_retrieve {W b i n : Nat} {t : Table K V} (nd : AMap.Nodup t.cache)
       | false => simp only [Bool.false_eq_true, if_false]; exact ⟨hs1 k h hg, hcache k h hg⟩
       | true =>
         simp only [if_true]
-        rw [hrow k h e3 e4 ho]
-        exact ⟨sorted_new _, valAt_new _ _⟩
+        cases hd : t.cdb.get? k with
+        | some hp =>
+          -- the previously persisted history is still on disk
+          have e : disk t k = hp := by unfold disk; rw [hd]
+          simp only []
+          rw [← e]; exact ⟨hsd, hdisk k⟩
+        | none =>
+          simp only []
+          rw [hold k h hg ho]
+          exact ⟨sorted_new _, valAt_new _ _⟩
     · rw [e1, e2]
       cases ho : h.isOld W b with
       | false => simp only [Bool.false_eq_true, if_false]; exact ⟨hs1 k h hg, hcache k h hg⟩
@@ -268,7 +277,11 @@ theorem reorg_reads {W n : Nat} {u : Table K V} (hc : u.cache = []) (x : K → O
     simp only [Table.latest, h5, e2]
     exact h1
 
-/-! ## The cache is never behind the disk -/
+/-! ## The cache is never behind the disk
+
+(`CacheAhead` was a necessary hypothesis of `crash_recoverable` while `commit` deleted an old history row before
+writing the value row.  With the present write order `crash_recoverable` no longer uses it; the invariant and its
+preservation theorems are kept, they are true and independent of the write order.) -/
 
 /-- Every cached history is at least as new as the persisted history of its key: no persisted stamp lies above
 the newest cached stamp.  True of every state reached through the API (`cacheAhead_run`): a cached history is the
